@@ -266,9 +266,13 @@ HARNESSES = [
                     (THETA_C + 0.02, THETA_C, 0.4, 2.5)]}),
     Harness('time-shift', h_shift, _mods, encodes=_enc, twins=('off-by-one',),
             cases={'quick': [{'model': 'zhs', 'n': 4, '_twins': 1}, {'model': 'avz', 'n': 6},
-                             {'model': 'arz', 'n': 8}],
+                             {'model': 'arz', 'n': 8},
+                             # exactly on the cone: ARZ's closed-form shortcut branch
+                             {'model': 'arz', 'n': 8, 'angle': THETA_C}],
                    'thorough': [{'model': m, 'n': n, 't0': t} for m in ('zhs', 'avz', 'arz')
-                                for n in (6, 7) for t in (0.35e-9, -0.6e-9)]}),
+                                for n in (6, 7) for t in (0.35e-9, -0.6e-9)] +
+                   [{'model': m, 'n': n, 't0': t, 'angle': THETA_C} for m in ('zhs', 'avz', 'arz')
+                    for n in (6, 7) for t in (0.35e-9, -0.6e-9)]}),
     Harness('zero-energy-and-finite', h_zero, _mods, encodes=_enc, twins=('nonzero',),
             cases={'quick': [{'model': m, 'n': 4, 'how': h} for m in ('zhs', 'avz', 'arz')
                              for h in ('energy', 'fracs', 'finite')] +
